@@ -478,6 +478,38 @@ def run(prog, rep):
                    "line %d: the header pattern is applied without testing that the line's %s: lines such as `[x]y = v` or `[sec] ; note` open a section and swallow the keys that follow" % (line(hc), what), hc)
     rep.floor("C16.6", 3)
 
+    # ---- C16.8 -----------------------------------------------------------------------------
+    rep.rule("C16.8", "byte tests can succeed: a comparison of a line byte with a constant reads the byte through a type that can hold the constant (the BOM bytes "
+                      "0xEF 0xBB 0xBF 0xFE 0xFF do not fit a signed char: compared as plain char on a signed-char platform, no BOM is ever recognised and the "
+                      "first section of such a file is lost)")
+    dead = []
+    nbyte = 0
+    for b, i, n in ps.nodes(elsewhere=True):
+        if n["k"] != "bin" or n["op"] not in ("==", "!="):
+            continue
+        for side, other in (("l", "r"), ("r", "l")):
+            c_ = cv(n[other])
+            e_ = n[side]
+            if c_ is None or cv(e_) is not None:
+                continue
+            # peel the implicit promotions: the type the value is actually read at
+            while e_ is not None and e_["k"] == "cast" and not e_.get("explicit") and e_.get("ck") in ("IntegralCast", "LValueToRValue", "NoOp"):
+                e_ = e_["e"]
+            t_ = u.type_of(e_) if e_ is not None else None
+            if not t_ or t_.get("k") != "int" or not t_.get("w") or t_["w"] > 8:
+                continue
+            root = root_var(e_)
+            if root != linebuf and not (V_LINE and root == V_LINE):
+                continue
+            nbyte += 1
+            lo, hi = (-(1 << (t_["w"] - 1)), (1 << (t_["w"] - 1)) - 1) if t_.get("sg") else (0, (1 << t_["w"]) - 1)
+            if not (lo <= c_ <= hi):
+                dead.append((n, c_, t_.get("s")))
+    rep.ob("C16.8", ps, "bytes", not dead and nbyte > 0, "%d comparisons of line bytes with constants read the byte at a type that holds the constant" % nbyte if (not dead and nbyte) else
+           ("line %d: a line byte read as %s is compared with 0x%X, which that type cannot hold: the test never succeeds, the byte-order mark is not skipped and the header on the "
+            "first line is not recognised" % (line(dead[0][0]), dead[0][2], dead[0][1]) if dead else "no byte comparison found in the parse loop"), dead[0][0] if dead else ps.loc[0])
+    rep.floor("C16.8", 1)
+
     # ---- C16.7 -----------------------------------------------------------------------------
     rep.rule("C16.7", "value pipeline: what the parse loop stores is the trimmed text - a section name and a key/value pair reach their constructors only as copies of "
                       "p_strchomp results, and the empty-quotes test (\"\" and '' mean the empty string) is made on the trimmed value, so blanks left between the "
@@ -604,6 +636,8 @@ def run(prog, rep):
 RENAME_LOCALS = ['src/pinifile.c']
 
 SELFTEST = [
+    dict(id="bom-bytes-compared-as-plain-char", file="src/pinifile.c", expect="C16.8",
+         old="\t\tif ((puchar) src_line[0] == 0xEF && (puchar) src_line[1] == 0xBB && (puchar) src_line[2] == 0xBF)", new="\t\tif (src_line[0] == 0xEF && src_line[1] == 0xBB && src_line[2] == 0xBF)"),
     dict(id="empty-quotes-tested-before-trim", expect="C16.7", edits=[
         dict(file="src/pinifile.c", old="\t\t\t/* New parameter found */\n", new="\t\t\t/* New parameter found */\n\t\t\tif (strcmp (value, \"\\\"\\\"\") == 0 || (strcmp (value, \"''\") == 0))\n\t\t\t\tvalue[0] = '\\0';\n\n"),
         dict(file="src/pinifile.c", old="\t\t\t\t\tif (strcmp (value, \"\\\"\\\"\") == 0 || (strcmp (value, \"''\") == 0))\n\t\t\t\t\t\tvalue[0] = '\\0';\n\n\t\t\t\t\tif (section != NULL", new="\t\t\t\t\tif (section != NULL")]),
